@@ -66,10 +66,19 @@ def apply(repo, cand):
 
 
 def sh(cmd, cwd, timeout):
+    """Runs cmd in its own process group; on timeout the whole group is killed (a mutated parser that
+    spins inside a test binary would otherwise outlive `cargo test` and burn a core for ever)."""
+    import signal
+    p = subprocess.Popen(cmd, cwd=cwd, shell=True, stdout=subprocess.PIPE, stderr=subprocess.STDOUT, text=True, start_new_session=True)
     try:
-        r = subprocess.run(cmd, cwd=cwd, shell=True, capture_output=True, text=True, timeout=timeout)
-        return r.returncode, r.stdout + r.stderr
+        out, _ = p.communicate(timeout=timeout)
+        return p.returncode, out
     except subprocess.TimeoutExpired:
+        try:
+            os.killpg(p.pid, signal.SIGKILL)
+        except ProcessLookupError:
+            pass
+        p.communicate()
         return 124, "timeout"
 
 
@@ -82,6 +91,39 @@ def main():
         print(len(c), "candidates,", len(sel), "selected")
         for x in sel[:20]:
             print(x)
+        return
+    if sys.argv[1] == "rerun":
+        # automut.py rerun <lane-dir> <tsv>: re-runs the quick checks (all of them, most relevant first)
+        # for every mutant of <tsv> that survived the suite and was not caught, appending to <lane-dir>/rerun.tsv
+        lane, src = sys.argv[2], sys.argv[3]
+        repo, harness = lane + "/repo", lane + "/harness"
+        env = f"CARGO_NET_OFFLINE=true VERIF_ROOT={lane}/out VERIF_REPO={repo}"
+        sh(f"{env} cargo build --release --offline -q", harness, 900)
+        all_c = candidates(repo)
+        for l in open(src):
+            f = l.rstrip("\n").split("\t")
+            if not (f[3].startswith("SURVIVED") or "machinery" in f[3]):
+                continue
+            name, col = f[2].split("@")
+            cand = (f[0], int(f[1]) - 1, name, int(col))
+            if cand not in all_c:
+                continue
+            sh("git checkout -q -- .", repo, 60)
+            ch = apply(repo, cand)
+            sh(f"{env} cargo build --release --offline -q", harness, 900)
+            order = PARSER_ORDER if cand[0].startswith("parser") else SAPHYR_ORDER
+            res, by = "SURVIVED-ALL", ""
+            for c in order:
+                rc, out = sh(f"{env} ./target/release/vp check {c} --tier quick 2>&1 | grep -E '^VIOLATION|MACHINERY' | head -3", harness, 1800)
+                if "VIOLATION" in out:
+                    res, by = "caught", by + c
+                    break
+                if "MACHINERY" in out:
+                    by += f"[machinery-error:{c}]"
+            with open(lane + "/rerun.tsv", "a") as fh:
+                fh.write("\t".join([f[0], f[1], f[2], res, by, ch[0][:120], ch[1][:120]]) + "\n")
+        sh("git checkout -q -- .", repo, 60)
+        print("RERUN-DONE")
         return
     lane, stride, off = sys.argv[2], int(sys.argv[3]), int(sys.argv[4])
     repo, harness = lane + "/repo", lane + "/harness"
@@ -105,7 +147,7 @@ def main():
             res, by = "no-compile", ""
         else:
             # the compile step ran above without a limit; the test binaries get 6 GB of address space and 10 minutes
-            rc, out = sh("CARGO_NET_OFFLINE=true cargo test --workspace --no-run --offline -q 2>&1 | tail -1; ulimit -v 6000000; CARGO_NET_OFFLINE=true timeout 600 cargo test --workspace --no-fail-fast --offline 2>&1 | grep -E '^test result|^error|memory allocation'", repo, 1500)
+            rc, out = sh("CARGO_NET_OFFLINE=true cargo test --workspace --no-run --offline -q 2>&1 | tail -1; ulimit -v 6000000; CARGO_NET_OFFLINE=true cargo test --workspace --no-fail-fast --offline 2>&1 | grep -E '^test result|^error|memory allocation'", repo, 900)
             failed = sum(int(m) for m in re.findall(r"(\d+) failed", out))
             if rc == 124 or failed > 0 or "error" in out or "memory allocation" in out or "test result" not in out:
                 res, by = "killed-by-suite", ""
